@@ -111,6 +111,7 @@ func userOptionsWinRule(c *Ctx, r *Report) {
 }
 
 func checkC20(c *Ctx, r *Report) {
+	defer partDisciplineRule(c, r, "R20f")
 	defer userOptionsWinRule(c, r)
 	r.Assumption("strconv.ParseInt implements Go integer literal syntax for base 0 (trusted standard library)")
 	pf := c.Func("", "parseField")
